@@ -18,13 +18,11 @@ PLAIN = {115, 120, 233}
 
 def body(c):
     W = 4
-    # ---- mode M
-    m = vlib.run_tlc("lex/JsHtml.tla", "lex/MC_JsHtml.cfg", workers=W, timeout=900)
-    if m.invariant_violated:
-        raise vlib.ToolError("design-level failure in JsHtml.tla: " + str(m.invariant_violated))
-    if m.distinct < 1000:
-        raise vlib.ToolError("mode M explored only %d states" % m.distinct)
-    c.add_tlc("M JsHtml (MaxLen=3, SeqExtra=1: writers, deviation triggers, tokenizer lemma)", m)
+    # ---- mode M (runs beside the generator runs: at most 4 TLC workers at a time)
+    from concurrent.futures import ThreadPoolExecutor
+    pool = ThreadPoolExecutor(3)
+    fm = pool.submit(vlib.run_tlc, "lex/JsHtml.tla", "lex/MC_JsHtml.cfg", workers=2, timeout=900)
+
     # ---- mode G
     # (MaxLen, SeqExtra, slots) per generator run; quick goes one symbol deeper on one slot of each template shape
     runs = ([(3, 1, ["endpoint", "title"]), (2, 1, ["subscription", "hname", "hvalue", "pname", "pvalue"])] if c.quick
@@ -34,23 +32,32 @@ def body(c):
             case = json.load(f)["case"]
         rows = [{"slot": case["slot"], "val": case["val"]}]
     else:
-        rows = []
+        rows, futs = [], []
         for k, (n, extra, slots) in enumerate(runs):
             cfg = c.path("Gen_JsHtml_%d.cfg" % k)
             with open(cfg, "w") as f:
                 f.write("CONSTANT MaxLen = %d\nCONSTANT SeqExtra = %d\nCONSTANT Slots = {%s}\nINIT Init\nNEXT Next\nINVARIANT Emit\n"
                         % (n, extra, ", ".join('"%s"' % s for s in slots)))
-            g = vlib.run_tlc("lex/Gen_JsHtml.tla", cfg, workers=W, timeout=1800, keep_lines=50, xmx="6g")
+            futs.append(pool.submit(vlib.run_tlc, "lex/Gen_JsHtml.tla", cfg, workers=(1 if len(runs) > 1 else 2), timeout=1800,
+                                    keep_lines=50, xmx="6g"))
+        for (n, extra, slots), fut in zip(runs, futs):
+            g = fut.result()
             c.add_tlc("G values (MaxLen=%d, SeqExtra=%d, slots %s)" % (n, extra, ",".join(slots)), g)
             part = [json.loads(x) for x in sorted(set(t[1] for t in g.tagged("REPLAY")))]
             if len(part) != g.distinct:
                 raise vlib.ToolError("generator printed %d cases for %d states" % (len(part), g.distinct))
             rows += part
         rows.sort(key=lambda r: (SLOTS.index(r["slot"]), len(r["val"]), r["val"]))
+    m = fm.result()
+    if m.invariant_violated:
+        raise vlib.ToolError("design-level failure in JsHtml.tla: " + str(m.invariant_violated))
+    if m.distinct < 1000:
+        raise vlib.ToolError("mode M explored only %d states" % m.distinct)
+    c.add_tlc("M JsHtml (MaxLen=3, SeqExtra=1: writers, deviation triggers, tokenizer lemma)", m)
     vlib.write_ndjson(c.path("cases.ndjson"), rows)
     # ---- harness
     (binary,) = vlib.build_harness(["c34"])
-    nrand = 0 if c.replay else (1400 if c.quick else 35000)
+    nrand = 0 if c.replay else (1050 if c.quick else 35000)
     p = vlib.run_harness(binary, [c.path("cases.ndjson"), c.path("trace.ndjson"), c.seed, nrand], timeout=1800)
     if p.returncode != 0:
         raise vlib.ToolError("c34 harness failed: " + p.stderr[-2000:])
